@@ -416,6 +416,9 @@ public:
     try
     {
       _shutdown = false;
+      // A new transport numbers its sessions from 1 again: requests dispatched
+      // on the previous one must not address it (see processHttpRequest).
+      ++_transportEpoch;
 
       // Configure transport
       TransportConfig config;
@@ -969,8 +972,9 @@ protected:
 
       // Process request in thread pool to avoid blocking transport
       // Use tryEnqueue for backpressure - reject requests if queue is full
-      if (!_threadPool.tryEnqueue([this, sid, requestData]()
-                                  { processHttpRequest(sid, requestData); }))
+      const std::uint64_t epoch = _transportEpoch.load();
+      if (!_threadPool.tryEnqueue([this, sid, requestData, epoch]()
+                                  { processHttpRequest(sid, requestData, epoch); }))
       {
         // Thread pool is overloaded, send 503 Service Unavailable
         iora::core::Logger::warning(
@@ -994,12 +998,26 @@ protected:
     }
   }
 
-  /// \brief Process a complete HTTP request
+  /// \brief Process a complete HTTP request that arrived on the current transport
   void processHttpRequest(SessionId sid, const std::string &requestData)
+  {
+    processHttpRequest(sid, requestData, _transportEpoch.load());
+  }
+
+  /// \brief Process a complete HTTP request
+  /// \param epoch value of _transportEpoch when the request was dispatched.
+  /// stop() gives up on running handlers after a timeout and start() installs a
+  /// new transport whose session ids start at 1 again, so a worker that outlives
+  /// a stop()/start() cycle must not use its (stale) sid on the new transport:
+  /// every guarded transport access below also requires sameTransport().
+  void processHttpRequest(SessionId sid, const std::string &requestData, std::uint64_t epoch)
   {
     iora::core::Logger::debug("HttpServer::processHttpRequest() - "
                               "Processing request for session " +
                               std::to_string(sid));
+
+    // Call under _mutex (start() advances the epoch under _mutex).
+    const auto sameTransport = [this, epoch]() { return _transportEpoch.load() == epoch; };
 
     // Check if we're shutting down - with atomic read to avoid lock
     if (_shutdown.load())
@@ -1022,7 +1040,7 @@ protected:
       bool shutdownSendOk = false;
       {
         std::lock_guard<std::mutex> lock(_mutex);
-        if (_transport)
+        if (_transport && sameTransport())
         {
           _transport->sendAsync(sid, shutdownResponseData->data(), shutdownResponseData->size(),
                                 [shutdownResponseData](SessionId, const SendResult &) {});
@@ -1032,7 +1050,7 @@ protected:
       if (shutdownSendOk)
       {
         std::lock_guard<std::mutex> lock(_mutex);
-        if (_transport)
+        if (_transport && sameTransport())
         {
           _transport->close(sid);
         }
@@ -1144,7 +1162,7 @@ protected:
 
               {
                 std::lock_guard<std::mutex> lock(_mutex);
-                if (_transport && !_shutdown)
+                if (_transport && !_shutdown && sameTransport())
                 {
                   _transport->sendAsync(sid, sharedResponseData->data(), sharedResponseData->size(),
                                         [sharedResponseData](SessionId session, const SendResult &result)
@@ -1396,7 +1414,7 @@ protected:
       bool sendSucceeded = false;
       {
         std::lock_guard<std::mutex> lock(_mutex);
-        if (_transport && !_shutdown)
+        if (_transport && !_shutdown && sameTransport())
         {
           iora::core::Logger::info(
             "HttpServer: Sending " + std::to_string(res.status) + " response to " +
@@ -1436,7 +1454,7 @@ protected:
       if (sendFailed || (sendSucceeded && shouldCloseConnection))
       {
         std::lock_guard<std::mutex> lock(_mutex);
-        if (_transport && !_shutdown)
+        if (_transport && !_shutdown && sameTransport())
         {
           _transport->close(sid);
         }
@@ -1483,7 +1501,7 @@ protected:
       bool errorSendOk = false;
       {
         std::lock_guard<std::mutex> lock(_mutex);
-        if (_transport && !_shutdown)
+        if (_transport && !_shutdown && sameTransport())
         {
           iora::core::Logger::debug("HttpServer::processHttpRequest() - "
                                     "Sending error response for session " +
@@ -1513,7 +1531,7 @@ protected:
       if (errorSendOk)
       {
         std::lock_guard<std::mutex> lock(_mutex);
-        if (_transport && !_shutdown)
+        if (_transport && !_shutdown && sameTransport())
         {
           _transport->close(sid);
         }
@@ -2339,6 +2357,9 @@ private:
   std::shared_ptr<Transport> _transport;
   ListenerId _listenerId{0};
   std::atomic<bool> _shutdown;
+  // Identity of _transport: advanced by start() (under _mutex) whenever a new
+  // transport is installed; captured per request at dispatch.
+  std::atomic<std::uint64_t> _transportEpoch{0};
 
   // Thread pool for processing requests
   core::ThreadPool _threadPool;
